@@ -534,3 +534,33 @@ Example C01_arcs_resolve_example :
                  mkNode 21 20 [21; 8] [21] (KOrig 1);
                  mkNode 7 1 [] [] (KOrig 1); mkNode 8 1 [] [] (KOrig 1) ] = true.
 Proof. vm_compute. reflexivity. Qed.
+
+(* ---------- the same two theorems with BOOLEAN premises (Model/Applic.v) ----------
+   Every hypothesis of the two hierarchy-level theorems is decidable; walk_pre_cbh / walk_pre_extract
+   compute them and are proved to imply them.  The extracted checker evaluates them on every call of
+   insert_block_and_control_blocks and of extract_region the pipeline makes during the C02 check
+   (evidence: path_theorem_hypotheses_met), so the theorems are known to apply, as stated, to the calls
+   that really occur. *)
+From V Require Import Model.Applic.
+
+Theorem C01_header_unification_any_level_preserves_paths_b :
+  forall h lvl new var preds Ss names h' strict,
+    insert_cb_h h lvl new var preds Ss names = XOk h' ->
+    walk_pre_cbh h lvl new var preds Ss names = true ->
+    forall n e e' ds tr st,
+      (exists b p, find h n = Some b /\ n_kind b = KOrig p) ->
+      E (Fc var) e e' ->
+      WTrace h (resolve_flat h) strict n e ds tr st -> WTrace h' (resolve_flat h') strict n e' ds tr st.
+Proof. exact insert_cb_h_keeps_walks_b. Qed.
+Print Assumptions C01_header_unification_any_level_preserves_paths_b.
+
+Theorem C01_region_extraction_preserves_paths_b :
+  forall hd rname h lvl blocks entries ex rk h' strict,
+    extract h lvl blocks entries hd ex rk rname = XOk h' ->
+    walk_pre_extract h lvl hd rname = true ->
+    forall n e e' ds tr st,
+      (exists b p, find h n = Some b /\ n_kind b = KOrig p) ->
+      E Fx e e' ->
+      WTrace h (resolve_flat h) strict n e ds tr st -> WTrace h' (resolve_flat h') strict n e' ds tr st.
+Proof. exact extract_keeps_walks_b. Qed.
+Print Assumptions C01_region_extraction_preserves_paths_b.
